@@ -236,6 +236,57 @@ pub fn generate(thorough: bool, r: &mut Rng, em: &mut Emit) {
             }
         }
     }
+    // a recursive variant whose only finite alternatives mention ONE named type more than once: the size estimate that picks the
+    // alternatives allowed at the depth / size limit must not take the second mention for recursion
+    for _ in 0..(6 * scale) {
+        let h = |s: &str| candid::idl_hash(s);
+        let acc = match r.below(3) { 0 => T::rec(vec![(h("id"), T::p("nat"))]), 1 => T::rec(vec![(h("id"), T::p("nat8")), (h("name"), T::p("text"))]), _ => T::variant(vec![(h("a"), T::p("null")), (h("b"), T::p("nat"))]) };
+        let base = match r.below(3) { 0 => T::rec(vec![(h("a"), T::var("acc")), (h("b"), T::var("acc"))]), 1 => T::rec(vec![(0, T::var("acc")), (1, T::opt(T::var("acc"))), (2, T::var("acc"))]), _ => T::rec(vec![(h("head"), T::var("acc")), (h("tail"), T::rec(vec![(h("a"), T::var("acc"))]))]) };
+        let again = match r.below(3) { 0 => T::rec(vec![(0, T::var("op")), (1, T::var("op"))]), 1 => T::rec(vec![(h("tail"), T::var("op"))]), _ => T::rec(vec![(h("head"), T::var("acc")), (h("tail"), T::var("op"))]) };
+        // random ids: which alternative comes first in id order varies
+        let (i1, i2) = loop { let a = r.below(5000) as u32; let b = r.below(5000) as u32; if a != b { break (a, b); } };
+        let mut alts = vec![(i1, base), (i2, again)];
+        if r.coin(1, 3) { let i3 = 5000 + r.below(100) as u32; alts.push((i3, T::rec(vec![(0, T::var("acc")), (1, T::var("acc")), (2, T::var("op"))]))); }
+        let env: Env = vec![("acc".into(), acc), ("op".into(), T::variant(alts))];
+        for c in ["", "depth = 2\n", "depth = 3\nsize = 10\n", "depth = 1\nsize = 3\n", "op = { depth = 2 }\n"] {
+            for t in [T::var("op"), T::rec(vec![(0, T::var("op")), (1, T::var("acc"))]), T::opt(T::var("op"))] {
+                for seed in [vec![], vec![0xffu8; 64], vec![0u8; 64], r.bytes(64), r.bytes(512), r.bytes(2048)] {
+                    let args = vec![env_sx(&env), tys_sx(&[t.clone()]), sx::hex(c.as_bytes()), sx::hex(&seed)];
+                    em.stat("recursive-variant.base-mentions-a-name-twice");
+                    em.case_nt("p.c20.inhabits", &args, true);
+                    em.case_nt("p.c20.succeeds", &args, true);
+                    let d: i64 = c.lines().find_map(|l| l.strip_prefix("depth = ").and_then(|x| x.trim().parse().ok())).unwrap_or(10);
+                    let mut a4 = args.clone(); a4.push((d.max(0) as usize + 12).to_string());
+                    em.case_nt("p.c20.depth", &a4, true);
+                }
+            }
+        }
+    }
+    // one literal supplied through the configuration for positions of DIFFERENT types: each use is checked against its own type
+    {
+        let h = |s: &str| candid::idl_hash(s);
+        let ints = ["nat", "int", "nat8", "int16", "nat64", "int64"];
+        let mut progs: Vec<(T, String)> = vec![
+            (T::rec(vec![(h("a"), T::rec(vec![(h("id"), T::p("nat"))])), (h("b"), T::rec(vec![(h("id"), T::p("int32"))]))]), "id.value = [\"42\"]\n".into()),
+            (T::rec(vec![(h("a"), T::p("nat8")), (h("b"), T::vec(T::p("int16")))]), "nat8.value = [\"7\"]\nint16.value = [\"7\", \"-7\"]\n".into()),
+            (T::rec(vec![(h("a"), T::opt(T::p("nat"))), (h("b"), T::opt(T::opt(T::p("nat")))), (h("id"), T::p("null"))]), "a.value = [\"null\"]\nb.value = [\"null\"]\nid.value = [\"null\"]\n".into()),
+            (T::rec(vec![(h("a"), T::vec(T::p("nat8"))), (h("b"), T::vec(T::p("nat16")))]), "a.value = [\"vec { 1; 2 }\"]\nb.value = [\"vec { 1; 2 }\"]\n".into()),
+        ];
+        for _ in 0..(4 * scale) {
+            let p1: &str = *r.pick(&ints[..]); let p2 = loop { let p: &str = *r.pick(&ints[..]); if p != p1 { break p; } };
+            let lits = ["1", "7", "0", "100"]; let l1: &str = *r.pick(&lits[..]); let l2: &str = *r.pick(&lits[..]);
+            let t = T::rec(vec![(0, T::Prim(p1)), (1, T::vec(T::Prim(p2))), (2, T::opt(T::Prim(p1))), (3, T::Prim(p2))]);
+            progs.push((t, format!("{}.value = [{:?}, {:?}]\n{}.value = [{:?}, {:?}]\n", p1, l1, l2, p2, l2, l1)));
+        }
+        for (t, c) in progs {
+            for seed in [vec![], vec![1u8, 2, 3], vec![0xffu8; 64], r.bytes(16), r.bytes(64), r.bytes(256)] {
+                let args = vec![env_sx(&vec![]), tys_sx(&[t.clone()]), sx::hex(c.as_bytes()), sx::hex(&seed)];
+                em.stat("configured-literal.shared-by-two-types");
+                em.case_nt("p.c20.config_value", &args, true);
+                em.case_nt("p.c20.inhabits", &args, true);
+            }
+        }
+    }
     // configured values: well-typed, ill-typed, unparsable
     for (t, vals) in [(T::p("nat8"), vec!["42", "300", "\"x\"", "(", "-1"]), (T::opt(T::p("text")), vec!["null", "opt \"a\"", "\"a\"", "opt 5"]),
                       (T::vec(T::p("int")), vec!["vec { 1; -2 }", "vec { 1.5 }", "blob \"ab\""]), (T::rec(vec![(0, T::p("bool"))]), vec!["record { true }", "record { 0 = 1 }", "record {}"])] {
